@@ -172,7 +172,7 @@ def rule_standardize(ctx):
     for sub in walk_shallow(fi.node):
         if isinstance(sub, ast.If):
             names = {n.id for n in ast.walk(sub.test) if isinstance(n, ast.Name)}
-            assigns0 = any(isinstance(s, ast.Assign) and isinstance(s.value, ast.Constant) and s.value.value == 0
+            assigns0 = any(isinstance(s, (ast.Assign, ast.Return)) and isinstance(s.value, ast.Constant) and s.value.value == 0
                            and not isinstance(s.value.value, bool) for s in sub.body)
             if assigns0 and len(params) > 1 and params[1] in names and vparam in names:
                 zero_ok = True
